@@ -153,6 +153,37 @@ impl<O: PackRecipient + 'static + ?Sized> ContentPackCreator<O> {
         })
     }
 
+    /// As `new_from_output_with_progress` with a chosen number of compression threads.
+    /// Verification only.
+    #[cfg(jubako_verif)]
+    pub fn new_from_output_verif(
+        mut file: Box<O>,
+        pack_id: PackId,
+        app_vendor_id: VendorId,
+        free_data: PackFreeData,
+        compression: Compression,
+        progress: Arc<dyn Progress>,
+        nb_threads: usize,
+    ) -> std::io::Result<Self> {
+        file.seek(SeekFrom::Start(
+            (PackHeader::BLOCK_SIZE + ContentPackHeader::BLOCK_SIZE) as u64,
+        ))?;
+        let cluster_writer =
+            ClusterWriterProxy::new(file, compression, nb_threads, Arc::clone(&progress));
+        Ok(Self {
+            app_vendor_id,
+            pack_id,
+            free_data,
+            content_infos: vec![],
+            raw_open_cluster: None,
+            comp_open_cluster: None,
+            next_cluster_id: Cell::new(0),
+            cluster_writer,
+            progress,
+            compression,
+        })
+    }
+
     fn open_cluster(&self, compressed: bool) -> ClusterCreator {
         let cluster_id = self.next_cluster_id.replace(self.next_cluster_id.get() + 1);
         self.progress.new_cluster(cluster_id, compressed);
